@@ -33,7 +33,7 @@ type RuleInfo struct {
 }
 
 type Report struct {
-	remap map[string]string // while set: only these rule ids are recorded, under the mapped id
+	remap     map[string]string // while set: only these rule ids are recorded, under the mapped id
 	Prop      string
 	Tier      string
 	Level     string
